@@ -737,6 +737,9 @@ class Engine:
         m = getattr(self, "st_" + type(stmt).__name__, None)
         if m is None:
             raise Unsupported(f"statement {type(stmt).__name__} at {self.origin(stmt)}")
+        for pred, types, why in getattr(self, "abstract_stmts", ()):
+            if pred(stmt):
+                return self._havoc_stmt(stmt, st, types, why)
         outs = m(stmt, st)
         hooks = getattr(self, "ghost_hooks", None)
         if hooks and not isinstance(stmt, (ast.For, ast.While, ast.If, ast.Try)):
@@ -749,6 +752,53 @@ class Engine:
                         if o.kind == "normal":
                             fn(self, o.st)   # ghost code: may only touch ghost variables / ghost heap fields
         return outs
+
+    def _havoc_stmt(self, stmt, st, types, why):
+        """Abstraction of a statement the contract does not look into: every local name it can write gets an arbitrary value
+        of the declared type (a sound over-approximation of its normal termination; the assumption is recorded)."""
+        from . import loops
+
+        self.use(f"abstracted statement at line {getattr(stmt, 'lineno', '?')}: {why} (assumed to terminate normally and to write local names only)")
+        if isinstance(stmt, ast.If):
+            # the test is evaluated as usual; each branch is abstracted on its own (an untaken branch writes nothing)
+            outs = []
+            for s1, c in self.ev(stmt.test, st):
+                if isinstance(c, Raise):
+                    outs.append(Outcome("raise", s1, c.exc))
+                    continue
+                for s2, taken in self.fork_truth(s1, c):
+                    blk = stmt.body if taken else stmt.orelse
+                    if not blk:
+                        outs.append(Outcome("normal", s2))
+                    else:
+                        outs.extend(self._havoc_stmt(ast.Module(body=list(blk), type_ignores=[]), s2, types, why))
+            return outs
+        names = loops.assigned_names(stmt.body if isinstance(stmt, ast.Module) else [stmt]) + loops.mutated_lists(stmt.body if isinstance(stmt, ast.Module) else [stmt])
+        for node in ast.walk(stmt):
+            if isinstance(node, (ast.Subscript, ast.Attribute)) and isinstance(node.ctx, ast.Store):
+                base = node.value
+                while isinstance(base, (ast.Subscript, ast.Attribute)):
+                    base = base.value
+                if not isinstance(base, ast.Name):
+                    raise Unsupported("abstracted statement stores through a non-name")
+                names.append(base.id)
+            if isinstance(node, (ast.Return, ast.Raise, ast.Global, ast.Nonlocal, ast.Yield, ast.Await)):
+                raise Unsupported(f"abstracted statement contains {type(node).__name__}")
+        s2 = st.fork()
+        for n in dict.fromkeys(names):
+            kind = types.get(n)
+            if kind is None:
+                raise Unsupported(f"abstracted statement writes {n!r}, for which the contract declares no type")
+            if kind == "str":
+                v = VStr(fresh("h_" + n, z3.StringSort()))
+            elif kind == "int":
+                v = VInt(fresh("h_" + n, z3.IntSort()))
+            elif kind == "bool":
+                v = VBool(fresh("h_" + n, z3.BoolSort()))
+            else:
+                v = VOpq("havoc:" + n, fresh("h_" + n, z3.IntSort()))
+            self.assign_name(s2, n, v)
+        return [Outcome("normal", s2)]
 
     def st_Pass(self, stmt, st):
         return [Outcome("normal", st)]
